@@ -142,7 +142,7 @@ Proof.
   destruct (resolve b (c1 ++ c2)) as [r|] eqn:R; [|discriminate].
   apply IHc1 in R. destruct R as (c1' & c2' & R1 & R2 & ->). rewrite R1.
   destruct a; try (inversion H; subst; eexists; eexists; splits; eauto; reflexivity).
-  destruct (b - p - 2 <=? 65535); [|discriminate]. inversion H; subst.
+  destruct ((p + 2 <=? b) && (b - p - 2 <=? 65535)); [|discriminate]. inversion H; subst.
   eexists; eexists; splits; eauto; reflexivity.
 Qed.
 
@@ -155,7 +155,7 @@ Proof.
   destruct (resolve b c1) as [r1|] eqn:R1; [|discriminate].
   rewrite (IHc1 c2 r1 c2' eq_refl H2).
   destruct a; try (inversion H1; subst; reflexivity).
-  destruct (b - p - 2 <=? 65535); [|discriminate]. inversion H1; subst. reflexivity.
+  destruct ((p + 2 <=? b) && (b - p - 2 <=? 65535)); [|discriminate]. inversion H1; subst. reflexivity.
 Qed.
 
 Lemma resolve_size : forall b c c', resolve b c = OK c' -> code_size c' = code_size c.
@@ -163,7 +163,7 @@ Proof.
   induction c; intros c' H; cbn [resolve] in H; [inversion H; reflexivity|].
   destruct (resolve b c) as [r|] eqn:R; [|discriminate]. specialize (IHc _ eq_refl).
   destruct a; try (inversion H; subst; cbn [code_size]; rewrite IHc; reflexivity).
-  destruct (b - p - 2 <=? 65535); [|discriminate]. inversion H; subst. cbn [code_size size]. rewrite IHc. reflexivity.
+  destruct ((p + 2 <=? b) && (b - p - 2 <=? 65535)); [|discriminate]. inversion H; subst. cbn [code_size size]. rewrite IHc. reflexivity.
 Qed.
 
 Lemma cares_app : forall prog brk pc c1 c2,
@@ -192,11 +192,11 @@ Proof.
 Qed.
 
 Lemma cares_hole : forall prog brk pc p, cares prog brk pc [IHole p] ->
-  code_at prog pc [IJump (brk - p - 2)] /\ brk - p - 2 <= 65535.
+  code_at prog pc [IJump (brk - p - 2)] /\ brk - p - 2 <= 65535 /\ p + 2 <= brk.
 Proof.
   intros prog brk pc p (c' & R & CA). cbn [resolve] in R.
-  destruct (brk - p - 2 <=? 65535) eqn:E; [|discriminate]. inversion R; subst.
-  apply N.leb_le in E. auto.
+  destruct ((p + 2 <=? brk) && (brk - p - 2 <=? 65535)) eqn:E; [|discriminate]. inversion R; subst.
+  apply andb_prop in E as [E1 E2]. apply N.leb_le in E1, E2. auto.
 Qed.
 
 Lemma resolve_idem : forall b c c', resolve b c = OK c' -> forall b2, resolve b2 c' = OK c'.
@@ -204,7 +204,7 @@ Proof.
   induction c; intros c' H b2; cbn [resolve] in H; [inversion H; reflexivity|].
   destruct (resolve b c) as [r|] eqn:R; [|discriminate]. specialize (IHc _ eq_refl b2).
   destruct a; try (inversion H; subst; cbn [resolve]; rewrite IHc; reflexivity).
-  destruct (b - p - 2 <=? 65535); [|discriminate]. inversion H; subst. cbn [resolve]. rewrite IHc. reflexivity.
+  destruct ((p + 2 <=? b) && (b - p - 2 <=? 65535)); [|discriminate]. inversion H; subst. cbn [resolve]. rewrite IHc. reflexivity.
 Qed.
 
 (* code resolved by an inner loop sits in the chunk as it is, whatever the outer loop resolves *)
